@@ -13,7 +13,7 @@ from .rtcommon import HOWS, RT_ASSUMPTIONS, make_replay
 
 NAMES = ["ExecOnce", "ExecArgsExact", "ExecOutcomeIdentity", "ExecRightFlavour", "ExecNotAFailureObserved", "ExecReturnsObserved", "AtMostOnce"]
 replay = make_replay(NAMES)
-EXEC_HOWS = ["none", "val:awaitable", "val:0", "val:0.0", "val:False", "val:''", "val:[]", "val:()", "val:x", "val:obj", "exc:LookupError", "exc:UserExc", "exc:UserExcSub", "exc:RuntimeError", "exc:ValueError", "exc:TimeoutError"]
+EXEC_HOWS = ["none", "val:excobj", "val:awaitable", "val:0", "val:0.0", "val:False", "val:''", "val:[]", "val:()", "val:x", "val:obj", "exc:LookupError", "exc:UserExc", "exc:UserExcSub", "exc:RuntimeError", "exc:ValueError", "exc:TimeoutError"]
 
 
 def shapes(thorough, rnd):
@@ -88,6 +88,16 @@ def run(ctx):
         script += [{"op": "execute", "p": "x1p", "ctx": base["exec_ctx"][0], "how": "exc:TimeoutError"}, {"op": "execute", "p": "x2p", "ctx": base["exec_ctx"][-1], "how": "exc:TimeoutError"}]
         script += [{"op": "step", "p": b} for b in base["pre_all"]] + [{"op": "polls", "n": 2}]
         extra.append({"seed": ctx.seed, "jitter": 0.0, "payloads": base["payloads"], "script": script, "shape": "targeted-execute-raises-timeouterror-" + xf})
+    # a payload may RETURN an exception object (it is a value like any other), and execute() may
+    # be called from a worker thread of a thread payload's private asyncio / trio loop
+    for k, base in enumerate(sh):
+        pre = [{"op": "adopt", "p": b, "ctx": "driver"} for b in base["pre_all"]]
+        script = pre + [{"op": "accept"}, {"op": "wait_running"}] + [{"op": "wait_start", "p": b} for b in base["pre_all"]]
+        hp = next((b for b in base["pre_all"] if base["payloads"][b]["flavour"] == "threading"), None)
+        own = [{"op": "execute", "p": "x1p", "ctx": ("ownloop:" if k % 2 else "owntrio:") + hp, "how": "val:x"}, {"op": "execute", "p": "x2p", "ctx": "ownloopdirect:" + hp, "how": "exc:UserExc"}] if hp else []
+        script += [{"op": "execute", "p": "x1p", "ctx": base["exec_ctx"][0], "how": "val:excobj"}, {"op": "execute", "p": "x2p", "ctx": base["exec_ctx"][-1], "how": "val:baseobj"}] + own
+        script += [{"op": "step", "p": b} for b in base["pre_all"]] + [{"op": "polls", "n": 2}]
+        extra.append({"seed": ctx.seed, "jitter": 0.0, "payloads": base["payloads"], "script": script, "shape": "targeted-execute-returns-exception-object"})
     # execute() from a thread payload while the runtime is closing (the service loop has already
     # left, the runners are still up): the outcome is handed over all the same
     for f in ("asyncio", "trio"):
